@@ -244,6 +244,13 @@ func c06Harness(cfg *Cfg) func(x *mc.Exec) {
 					return
 				}
 				if reuse {
+					// the first life carries header fields; Reset must drop them like compress/gzip does
+					switch g := w.(type) {
+					case *fgzip.Writer:
+						g.Header = fgzip.Header{Name: "first-life", Comment: "c", Extra: []byte{1, 2}, ModTime: time.Unix(1e9, 0), OS: 7}
+					case *stdgzip.Writer:
+						g.Header = stdgzip.Header{Name: "first-life", Comment: "c", Extra: []byte{1, 2}, ModTime: time.Unix(1e9, 0), OS: 7}
+					}
 					if err = applyPattern(w, 0, small); err != nil {
 						return
 					}
@@ -302,6 +309,19 @@ func c06Harness(cfg *Cfg) func(x *mc.Exec) {
 			}
 			x.Fail("C06 std-reads-fast "+site, "%s: compress/* reads fastgo's output as err=%v, %s", desc, e1, diffDesc(p1, p.Data))
 			return
+		}
+		if c.kind == "gzip" {
+			// header fields as compress/gzip reads them from both outputs (after Reset: the defaults again)
+			zf, ef := stdgzip.NewReader(bytes.NewReader(fout))
+			zs, es := stdgzip.NewReader(bytes.NewReader(sout))
+			if ef != nil || es != nil {
+				x.Fail("C06 std-reads-fast "+site, "%s: compress/gzip cannot open the output: fastgo's %v, its own %v", desc, ef, es)
+				return
+			}
+			if !hdrEq(zf.Header, zs.Header) {
+				x.Fail("C06 header-differs "+site, "%s: compress/gzip reads header %s from fastgo's output and %s from its own", desc, trimHdr(zf.Header), trimHdr(zs.Header))
+				return
+			}
 		}
 		p2, e2 := readAll(sout, true)
 		p0, e0 := readAll(sout, false)
